@@ -131,11 +131,22 @@ func (fx *FuncCtx) execLookup(st *State, in *ssa.Lookup) {
 	for j := range vcs {
 		out.C = append(out.C, ite(present, sx("select", sx("select", fx.heapGet(st.heap, vals[j]), m), k.s()), zero[j]))
 	}
-	fx.assumeTyping(st, out)
 	if in.CommaOk {
-		fx.set(st, in, Val{T: in.Type(), Tup: []Val{out, {T: BoolT, C: []string{present}}}})
+		// two paths instead of ite-values: the looked-up value stays a plain select term (matchable by triggers)
+		stY, stN := st.clone(), st.clone()
+		stY.assume(present)
+		hit := Val{T: mt.Elem()}
+		for j := range vcs {
+			hit.C = append(hit.C, sx("select", sx("select", fx.heapGet(st.heap, vals[j]), m), k.s()))
+		}
+		fx.assumeTyping(stY, hit)
+		fx.set(stY, in, Val{T: in.Type(), Tup: []Val{hit, {T: BoolT, C: []string{"true"}}}})
+		stN.assume(not(present))
+		fx.set(stN, in, Val{T: in.Type(), Tup: []Val{{T: mt.Elem(), C: zero}, {T: BoolT, C: []string{"false"}}}})
+		fx.forkAfter(st, in, []*State{stY, stN})
 		return
 	}
+	fx.assumeTyping(st, out)
 	fx.set(st, in, out)
 }
 
